@@ -338,6 +338,7 @@ TypeOneDRule TasmanianSparseGrid::getRule() const{ return (base) ? base->getRule
 const char* TasmanianSparseGrid::getCustomRuleDescription() const{ return (isGlobal()) ? get<GridGlobal>()->getCustomRuleDescription() : ""; }
 
 void TasmanianSparseGrid::getLoadedPoints(double *x) const{
+    if (getNumLoaded() == 0) return; // nothing is loaded (empty grid or zero outputs), the array has no entries to write
     base->getLoadedPoints(x);
     formTransformedPoints(base->getNumLoaded(), x);
 }
